@@ -83,7 +83,7 @@ def splitBar (toks : List String) : List String × List String :=
   (toks.takeWhile (· ≠ "|"), (toks.dropWhile (· ≠ "|")).drop 1)
 
 def showVals (e : Env) (names : List String) : String :=
-  let kv := names.filterMap (fun k => (e k).map (fun v => k ++ "=" ++ showRat v))
+  let kv := names.filterMap (fun k => (e.val k).map (fun v => k ++ "=" ++ showRat v))
   if kv.isEmpty then "[]" else ",".intercalate kv
 
 def chainAnswer (mode : String) (lds : List LinDisc) (ext : List (String × Rat)) : String :=
@@ -97,8 +97,8 @@ def chainAnswer (mode : String) (lds : List LinDisc) (ext : List (String × Rat)
     else mdaChainGrammar ds seq (mode = "mdapar") (mode = "mdags")
   let ins := sortDedup gr.1
   let outs := sortDedup gr.2
-  let e0 : Env := fun k => if ins.contains k then
-      (match ext.find? (fun p => p.1 = k) with | some p => some p.2 | none => some 0) else none
+  let e0 : Env := ins.map (fun k =>
+      (match ext.find? (fun p => p.1 = k) with | some p => (k, p.2) | none => (k, 0)))
   let e1 : Env :=
     if mode = "mdo" then chainEval ((List.range lds.length).map run) e0
     else if mode = "seqchain" then chainEval (flatSeq.map run) e0
